@@ -8,7 +8,7 @@ import (
 
 func init() { register("C08", checkC08) }
 
-var c08Origins = []string{"literal", "literal-raw", "file", "stdin", "stdin-prompt", "cmd"}
+var c08Origins = []string{"literal", "literal-raw", "file", "file-dash", "file-blank", "stdin", "stdin-prompt", "stdin-last-unterminated", "cmd"}
 var c08Paths = []string{"print", "assign", "concat", "compare", "arg", "arg-direct", "return", "slice-store", "slice-literal", "slice-load-copy", "range-string", "range-slice", "subscript", "len", "write", "panic", "switch"}
 
 // c08Program builds the program for one (origin, path) with value v. ok=false
@@ -17,7 +17,7 @@ func c08Program(origin, path, v, place string) (bc BashCase, ok bool) {
 	stmts := []Stmt{}
 	pre := map[string]string{}
 	stdin := ""
-	runtime := origin == "file" || origin == "stdin" || origin == "stdin-prompt" || origin == "cmd"
+	runtime := strings.HasPrefix(origin, "file") || strings.HasPrefix(origin, "stdin") || origin == "cmd"
 	if runtime && strings.HasSuffix(v, "\n") {
 		return bc, false // the origin APIs are specified to drop a trailing newline (C17/C18)
 	}
@@ -32,6 +32,18 @@ func c08Program(origin, path, v, place string) (bc BashCase, ok bool) {
 	case "file":
 		pre["in.txt"] = v + "\n"
 		stmts = append(stmts, def("v", Read{sl("in.txt")}))
+	case "file-dash", "file-blank":
+		// the same through a file whose name is "-" / contains blanks
+		fname := map[string]string{"file-dash": "-", "file-blank": "in put file.txt"}[origin]
+		pre[fname] = v + "\n"
+		stmts = append(stmts, def("v", Read{sl(fname)}))
+	case "stdin-last-unterminated":
+		// the value is the last line of the input and has no line end
+		if strings.Contains(v, "\n") || v == "" {
+			return bc, false
+		}
+		stdin = "first line\n" + v
+		stmts = append(stmts, def("first", Input{}), def("v", Input{}))
 	case "stdin":
 		if strings.Contains(v, "\n") {
 			return bc, false
@@ -76,7 +88,7 @@ func c08Program(origin, path, v, place string) (bc BashCase, ok bool) {
 		// the defining statement of v is dropped: the value expression stands directly in the argument lists
 		stmts = stmts[:len(stmts)-1]
 		stmts = append([]Stmt{fn("show", []Param{{"p", TString}, {"q", TString}}, nil, pr(vr("p")), pr(vr("q"))), fn("idf", []Param{{"p", TString}}, []Type{TString}, ret(vr("p")))}, stmts...)
-		if origin == "stdin" || origin == "stdin-prompt" {
+		if strings.HasPrefix(origin, "stdin") {
 			stmts = append(stmts, callS("show", direct, sl("second")), pr(sl("end")))
 		} else {
 			stmts = append(stmts, callS("show", direct, sl("second")), callS("show", sl("first"), direct), pr(call("idf", direct)), def("kept", call("idf", direct)), pr(vr("kept")), pr(bin("+", call("idf", direct), sl("|"))))
@@ -195,7 +207,7 @@ var c08Payloads = map[string]string{
 }
 
 func checkC08(c *Check) {
-	c.Rule = "table: origin (literal interpreted/raw, file via read, stdin via input, command output via @cat) x data path (17: panic message, switch tag and case, print, assign, concat, compare, argument via a variable, argument written directly in the call, return, slice store, slice literal, slice load via copy, range over string, range over slice, subscript, len, write) x character (95 printable ASCII, newline, tab) x position (first, middle, last, only) x place (top level, function body, two blocks deep inside a function), one program per cell, plus a payload list (command substitution, backticks, option-like words, globs, redirections, history, blanks) on every path x origin and random strings (thorough); each program runs under real bash in a sandbox; oracle = reference stdout/exit, empty stderr and the complete sandbox file system (any file the reference does not predict, e.g. a CANARY created by executed data, is a violation). Non-trivial = every cell; distinct = SHA-256 of source + stdin + files"
+	c.Rule = "table: origin (literal interpreted/raw, file via read incl. files named - and with blanks, stdin via input with and without prompt and as an unterminated last line, command output via @cat) x data path (17: panic message, switch tag and case, print, assign, concat, compare, argument via a variable, argument written directly in the call, return, slice store, slice literal, slice load via copy, range over string, range over slice, subscript, len, write) x character (95 printable ASCII, newline, tab) x position (first, middle, last, only) x place (top level, function body, two blocks deep inside a function), one program per cell, plus a payload list (command substitution, backticks, option-like words, globs, redirections, history, blanks) on every path x origin and random strings (thorough); each program runs under real bash in a sandbox; oracle = reference stdout/exit, empty stderr and the complete sandbox file system (any file the reference does not predict, e.g. a CANARY created by executed data, is a violation). Non-trivial = every cell; distinct = SHA-256 of source + stdin + files"
 	c.Assumptions = []string{"reference interpreter treats strings as byte vectors", "run-time origins skip values ending in a newline (the origin APIs drop it, C17/C18)", "Batch target not claimed"}
 	runProbes(c, bashProbeJudge)
 	cases := []BashCase{}
@@ -237,7 +249,7 @@ func checkC08(c *Check) {
 				for _, pos := range []string{"first", "middle", "last", "only"} {
 					// run-time origins strip terminators/guards from the end of the value: the last character is
 					// never thinned out on the shortest path
-					keep := (origin == "file" || origin == "cmd" || origin == "stdin") && path == "print" && (pos == "last" || pos == "only")
+					keep := (strings.HasPrefix(origin, "file") || origin == "cmd" || strings.HasPrefix(origin, "stdin")) && path == "print" && (pos == "last" || pos == "only")
 					if !c.Thorough() && !keep {
 						// quick tier: a seed-selected quarter of the table; letters/digits thinned out
 						isAlnum := (ch >= 'a' && ch <= 'z') || (ch >= 'A' && ch <= 'Z') || (ch >= '0' && ch <= '9')
